@@ -75,6 +75,57 @@ def canonical_case(d: Any) -> Optional[tuple[str, str, str]]:
     return key, "checked", ""
 
 
+def entry_value_ok(text: str, e: Any) -> str:
+    """'' if the code text of one matrix entry parses to the value of e"""
+    syms = printspace.symbols()
+    names = [s_.display_name for s_ in syms]
+    try:
+        tree = parse_code.parse(text, names)
+    except parse_code.ParseError as ex:
+        return f"entry {text!r} does not parse: {ex}"
+    for pt in POINTS:
+        env = {k: mpmath.mpf(sp.Rational(v).p) / sp.Rational(v).q for k, v in pt.items()}
+        rep = {s_: sp.Rational(pt[s_.display_name]) for s_ in syms}
+        try:
+            if not values.close(parse_code.evaluate(tree, env), mp_value(sp.sympify(e), rep), 1e-25,
+                    1e-40):
+                return f"entry {text!r} is not {short(e, 60)}"
+        except Exception as ex:  # pylint: disable=broad-except
+            return f"entry {text!r}: {type(ex).__name__}"
+    return ""
+
+
+def matrix_case(r: int, c: int, rot: int, immutable: bool) -> tuple[str, str, str]:
+    from symplyphysics.docs.printer_code import code_str
+    rows = printspace.matrix_entries(r, c, rot)
+    M = (sp.ImmutableMatrix if immutable else sp.Matrix)(rows)
+    text = code_str(M)
+    key = f"matrix:{r}x{c}:{rot}:{'immutable' if immutable else 'mutable'}"
+    if r == 1 and c > 1 and text.endswith(".T"):
+        text = text[:-2]  # a row is written as a transposed column
+    if not (text.startswith("[") and text.endswith("]")):
+        return key, "matrix", f"rendering {text!r} is not a bracketed list"
+    outer = printspace.split_top(text[1:-1], ",")
+    nested = all(x.startswith("[") and x.endswith("]") for x in outer)
+    if nested:
+        got = [printspace.split_top(x[1:-1], ",") for x in outer]
+    else:
+        got = [outer]
+    flat_want = [e for row in rows for e in row]
+    flat_got = [e for row in got for e in row]
+    shape_got = [len(row) for row in got]
+    ok_shapes = ([[c] * r] if r > 1 and c > 1 else [[r * c], [c] * r, [1] * (r * c)])
+    if shape_got not in ok_shapes:
+        return key, "matrix", f"{r} x {c} matrix rendered as {text!r}: row lengths {shape_got}"
+    if len(flat_got) != len(flat_want):
+        return key, "matrix", f"{r} x {c} matrix rendered with {len(flat_got)} entries: {text!r}"
+    for t, e in zip(flat_got, flat_want):
+        v = entry_value_ok(t, e)
+        if v:
+            return key, "matrix", f"{r} x {c} matrix rendered as {text!r}: {v}"
+    return key, "matrix", ""
+
+
 # ---- catalogue ------------------------------------------------------------------------------------
 
 
@@ -107,6 +158,16 @@ def catalogue_equation(modname: str, attr: str, value: Any, text: Any = None) ->
     fclasses = {f.func for f in value.atoms(sp.core.function.AppliedUndef)}
     names = [display_of(a) for a in atoms] + [display_of(f) for f in fclasses]
     names = [n for n in names if n]
+    seen: dict[str, Any] = {}
+    for a in sorted(atoms, key=str):
+        n = display_of(a)
+        if not n or isinstance(a, sp.Indexed):
+            continue
+        if n in seen and seen[n] != a:
+            # the reader cannot tell the two apart: the rendering denotes something else
+            return "value", (f"{short(text, 140)}: two different symbols of the equation are both "
+                f"shown as {n}")
+        seen[n] = a
     try:
         tree = parse_code.parse(text, names)
     except parse_code.ParseError as ex:
@@ -182,7 +243,16 @@ def _work(item: tuple) -> dict:
     def count(o: str) -> None:
         res["outcomes"][o] = res["outcomes"].get(o, 0) + 1
 
-    if kind == "trees":
+    if kind == "matrices":
+        for r_, c_, rot in payload:
+            for imm in (False, True):
+                res["n"] += 1
+                key, outcome, viol = matrix_case(r_, c_, rot, imm)
+                res["keys"].append(key)
+                count(outcome)
+                if viol:
+                    res["violations"].append((key, viol, {"matrix": [r_, c_, rot, imm]}))
+    elif kind == "trees":
         for d in payload:
             res["n"] += 1
             try:
@@ -243,6 +313,7 @@ def main(run: Run) -> int:
     items: list[tuple] = [("trees", c) for c in explore.chunked(descs, 400)]
     mods = catalogue.discover()
     items += [("catalogue", c) for c in explore.chunked(mods, 12)]
+    items.append(("matrices", list(printspace.matrix_space())))
     for r in pmap(_work, items):
         n = r.pop("n")
         run.evaluations += n
@@ -254,7 +325,8 @@ def main(run: Run) -> int:
         rule="(1) all auto-evaluated trees with <= n internal nodes over 10 leaves x {Add, Mul (2-3 "
         "args), Pow with 9 exponents, sqrt, exp, log, log base 2, sin, Abs}, de-duplicated by "
         "srepr of the canonical expression; (2) every documented catalogue equation in source "
-        "form; distinct = distinct canonical expressions / equations",
+        "form; (3) dense matrices of every shape up to 3 x 3 with pairwise distinct canonical entries; "
+        "distinct = distinct canonical expressions / equations",
         exhaustive=True,
         assumptions=["value equality at 2 lattice points (40 digits; 1e-11 when a Float is "
             "printed with 15 digits)", "catalogue equations containing derivatives, integrals, sums, "
@@ -266,6 +338,9 @@ def replay(case: dict) -> list[str]:
     if "tree" in case:
         r = canonical_case(explore.tup(case["tree"]))
         return [r[2]] if r and r[2] else []
+    if "matrix" in case:
+        r_, c_, rot, imm = case["matrix"]
+        return [v for v in [matrix_case(r_, c_, rot, imm)[2]] if v]
     members = dict(printspace.source_members(case["module"]))
     v = members.get(case["attr"])
     if v is None:
